@@ -23,6 +23,7 @@ theorem applyCmd_nodup (k : Kern) (t t' : Table) (cmd : Cmd) (h : applyCmd k t c
     split at h
     · cases h
     · cases h
+    · cases h
     · split at h
       · cases h
       · cases h; exact nodup_setChain _ _ _ hn
@@ -52,6 +53,7 @@ theorem applyCmd_other (k : Kern) (t t' : Table) (cmd : Cmd) (h : applyCmd k t c
     simp only [Cmd.chain] at hne
     simp only [applyCmd] at h
     split at h
+    · cases h
     · cases h
     · cases h
     · split at h
@@ -448,7 +450,7 @@ theorem foldlM_sets_ok (keep : Bool) (new : List IpSet) (sets : List IpSet) (hna
     exact ⟨sets', by simp only [List.foldlM_cons, h1]; exact h2⟩
 
 /-- without stale policy chains the policy batch cannot fail -/
-theorem policyBatch_ok (k : Kern) (ps : List NetPol)
+theorem policyBatch_ok (k : Kern) (ps : List NetPol) (hlim : overLimit ps = false)
     (hstale : ∀ c ∈ Tbl.keys k.tbl, c.isPlcy = true → c ∈ ps.map (fun p => Chain.plcy p.hash))
     (hsets : ∀ p ∈ ps, ∀ r ∈ policyChain p, ∀ n ∈ r.setRefs, setExists k.sets n = true) :
     ∃ t', restore k (policyBatch k.tbl ps) = .ok t' := by
@@ -480,7 +482,7 @@ theorem policyBatch_ok (k : Kern) (ps : List NetPol)
       intro x hx
       obtain ⟨p, hp, hx⟩ := List.mem_flatMap.mp hx
       obtain ⟨r, hr, rfl⟩ := List.mem_map.mp hx
-      exact ⟨policyChain_tgt p r hr, List.all_eq_true.mpr (fun n hn => hsets p hp r hr n hn)⟩) t1
+      exact ⟨policyChain_tgt p r hr, List.all_eq_true.mpr (fun n hn => hsets p hp r hr n hn), portsOK_of_limit hlim hp hr⟩) t1
     (by
       intro x hx
       obtain ⟨p, hp, hx⟩ := List.mem_flatMap.mp hx
@@ -615,6 +617,7 @@ structure SyncHyps (k : Kern) (c : Cluster) (ps : List NetPol) (node : String) :
   setNames : ((compileSets c ps).map (·.name)).Nodup
   setKeys : ∀ s ∈ compileSets c ps, KeysConsistent s.entries
   priorSets : ∀ s0 ∈ k.sets, KeysNodup s0.entries
+  limit : overLimit ps = false
 
 /-- FULL SYNC, whole owned state -/
 theorem fullSync_exact (k : Kern) (c : Cluster) (ps : List NetPol) (node : String) (H : SyncHyps k c ps node)
@@ -625,11 +628,12 @@ theorem fullSync_exact (k : Kern) (c : Cluster) (ps : List NetPol) (node : Strin
     SyncHyps (fullSyncWith true k c ps node).1 c ps node := by
   obtain ⟨f1, f2, f3, f4⟩ := fullSync_chains_exact true k c ps node H.polHashes H.podHashes H.prior hok
   obtain ⟨s1, _⟩ := syncRules_sets_exact k c ps H.setNames H.setKeys H.priorSets (by rw [hok]; intro f hf; cases hf)
-  refine ⟨f1, f3, fun s hs => by rw [f2]; exact s1 s hs, ⟨H.polHashes, H.podHashes, f4.prior, H.setNames, H.setKeys, ?_⟩⟩
+  refine ⟨f1, f3, fun s hs => by rw [f2]; exact s1 s hs,
+    ⟨H.polHashes, H.podHashes, f4.prior, H.setNames, H.setKeys, ?_, H.limit⟩⟩
   rw [f2]; exact syncRules_keysNodup true k c ps H.priorSets
 
 /-- after an exact sync, syncRules cannot fail -/
-theorem syncRules_ok_of_exact (k : Kern) (c : Cluster) (ps : List NetPol) (node : String)
+theorem syncRules_ok_of_exact (k : Kern) (c : Cluster) (ps : List NetPol) (node : String) (hlim : overLimit ps = false)
     (hnames : ((compileSets c ps).map (·.name)).Nodup) (hex : OwnedExact c ps node k.tbl)
     (hsets : ∀ s ∈ compileSets c ps, SetIs k.sets s.name s.type s.entries) :
     (syncRulesWith true k c ps).2 = [] := by
@@ -638,7 +642,7 @@ theorem syncRules_ok_of_exact (k : Kern) (c : Cluster) (ps : List NetPol) (node 
     obtain ⟨s', h1, h2, _⟩ := hsets s hs
     rw [h0] at h1; cases h1; exact h2)
   obtain ⟨hall, _⟩ := foldlM_sets_exist _ _ _ hfold
-  obtain ⟨t', ht'⟩ := policyBatch_ok { k with sets := sets2 } ps (by
+  obtain ⟨t', ht'⟩ := policyBatch_ok { k with sets := sets2 } ps hlim (by
     intro ch hc hp
     cases ch <;> simp [Chain.isPlcy] at hp
     rename_i h
@@ -672,7 +676,7 @@ theorem fullSync_idempotent (k : Kern) (c : Cluster) (ps : List NetPol) (node : 
       ∀ y, y ∈ e2 ↔ y ∈ e1) := by
   intro S1 R2
   obtain ⟨_, x1, x2, x3⟩ := fullSync_exact k c ps node H hok
-  have hok2 : (syncRulesWith true S1 c ps).2 = [] := syncRules_ok_of_exact S1 c ps node H.setNames x1 x2
+  have hok2 : (syncRulesWith true S1 c ps).2 = [] := syncRules_ok_of_exact S1 c ps node H.limit H.setNames x1 x2
   obtain ⟨g1, y1, y2, _⟩ := fullSync_exact S1 c ps node x3 hok2
   refine ⟨g1, fun h => by rw [y1.plcy h, x1.plcy h], ?_, ?_, ?_, ?_⟩
   · intro h
